@@ -295,7 +295,14 @@ PLATFORMS = {"unix64": Plat("unix64", 8, 2, 4, 8, 8), "unix32": Plat("unix32", 8
 
 
 class ProgGen:
-    """generates one MiniC function as (wire tokens, C text, occurrence table)"""
+    """generates one MiniC function as (wire tokens, C text, occurrence table).
+
+    Independence discipline (the validator has no relational domain, cppcheck has symbolic values):
+      * `rel[x]` = variables whose current value was computed from, or flowed into, the current value of x;
+      * a condition (if / while / ?: / && / ||) only tests variables with an empty `rel`, against constants;
+      * binary operators have at most one operand that mentions variables;
+      * inside a loop body the variables tested by the loop condition are only updated by `x++ / x-- / x op= const`
+        and never read by an assignment to another variable."""
 
     def __init__(self, rng, plat, grammar=None, size=None):
         self.rng, self.plat, self.g = rng, plat, dict(GRAMMAR, **(grammar or {}))
@@ -304,17 +311,55 @@ class ProgGen:
         self.names = []
         self.live = []          # variables declared so far (indices), readable
         self.size = size or rng.choice([4, 6, 8, 10, 14])
-        self.occ = {}           # id -> dict(kind, text, node)
         self.loop_depth = 0
+        self.rel = {}           # var -> set of related vars
+        self.protected = []     # stack of sets: loop-condition variables of the enclosing loops
 
     def fresh(self):
         self.nid += 1
         return self.nid
 
+    # ---- relation bookkeeping -----------------------------------------------------------------------------------
+    def prot(self):
+        r = set()
+        for p in self.protected:
+            r |= p
+        return r
+
+    def independent(self):
+        return [x for x in self.live if not self.rel.get(x)]
+
+    def readable(self):
+        """variables an assigned expression may read"""
+        pr = self.prot()
+        return [x for x in self.live if x not in pr]
+
+    def note_assign(self, x, e):
+        vs = vars_of(e)
+        new = set()
+        for v in vs:
+            if v != x:
+                new |= {v} | self.rel.get(v, set())
+        if x in vs:
+            new |= self.rel.get(x, set())
+        new.discard(x)
+        for y in list(self.rel):
+            self.rel[y].discard(x)
+        self.rel[x] = set(new)
+        for y in new:
+            self.rel.setdefault(y, set()).add(x)
+
+    def snapshot(self):
+        return {k: set(v) for k, v in self.rel.items()}
+
+    def merge(self, other):
+        for k, v in other.items():
+            self.rel.setdefault(k, set()).update(v)
+
     # ---- expressions: node = ("T", id, inner) --------------------------------------------------------------------
     def lit(self, v=None, ty=None):
         rng = self.rng
-        ty = ty or rng.choice(["is"] * 6 + ["iu", "iu", "ls", "lu", "qs"])
+        ty = ty or rng.choice(self.g.get("lit_types") or (["is"] * 6 + ["iu", "iu", "ls", "lu", "qs"]))
         if ty not in LIT_SUFFIX:
             ty = "is"
         if v is None:
@@ -326,129 +371,166 @@ class ProgGen:
             else:
                 b = rng.choice([7, 8, 15, 16, 31, 32])
                 v = rng.choice([2 ** b - 1, 2 ** b, 2 ** b + 1])
-        # a decimal literal without suffix that does not fit int gets a wider type in C: keep value inside the type
-        if v > self.plat.tmax(ty) or (ty[1] == "s" and v > self.plat.tmax(ty)):
-            v = self.plat.tmax(ty)
+        if v > self.plat.tmax(ty):
+            v = self.plat.tmax(ty)      # a literal that does not fit gets a wider type in C: keep the value inside the type
         return ("T", self.fresh(), ("L", v, ty))
 
     def var(self, x):
         return ("T", self.fresh(), ("V", x))
 
-    def leaf(self):
-        if self.live and self.rng.random() < 0.6:
-            return self.var(self.rng.choice(self.live))
+    def leaf(self, pool):
+        if pool and self.rng.random() < 0.6:
+            return self.var(self.rng.choice(pool))
         return self.lit()
 
-    def expr(self, depth):
+    def expr(self, depth, pool):
+        """pool = variables the expression may read"""
         rng, g = self.rng, self.g
         if depth <= 0 or rng.random() < 0.3:
-            return self.leaf()
+            return self.leaf(pool)
         k = rng.random()
         if k < 0.55:
             op = rng.choice(g["bin_ops"])
-            a = self.expr(depth - 1)
+            a = self.expr(depth - 1, pool)
             if op in ("<<", ">>") and rng.random() < 0.8:
                 b = self.lit(rng.choice([0, 1, 2, 3, 4, 7, 8, 15, 16, 31]), "is")
             elif op in ("/", "%") and rng.random() < 0.7:
-                b = self.lit(rng.choice([1, 2, 3, 4, 7, 8, 10, 16]), rng.choice(["is", "is", "iu"]))
+                b = self.lit(rng.choice([1, 2, 3, 4, 7, 8, 10, 16]), rng.choice(self.g.get("lit_types") or ["is", "is", "iu"]))
+            elif has_var(a) and not g.get("relational"):
+                b = self.const_expr(depth - 1)
             else:
-                b = self.expr(depth - 1)
-            if not self.g.get("same_operands") and strip_ids(a) == strip_ids(b):
-                b = self.lit()      # `x op x` is decided by cppcheck's same-expression rule, which the validator does not have
+                b = self.expr(depth - 1, pool)
+            if strip_ids(a) == strip_ids(b) and not g.get("same_operands"):
+                b = self.lit()
+            if rng.random() < 0.3:
+                if not (op in ("<<", ">>", "/", "%", "-")):
+                    a, b = b, a
             return ("T", self.fresh(), ("B", op, a, b))
         if k < 0.67 and g["un_ops"]:
             op = rng.choice(g["un_ops"])
-            sub = self.expr(depth - 1)
+            sub = self.expr(depth - 1, pool)
             if op == "-" and sub[2][0] == "L":
                 # `-` directly in front of a number is joined into one negative literal token by the tokenizer (and `a + -5`
                 # is rewritten to `a - 5`): never print that shape
-                sub = self.var(rng.choice(self.live)) if self.live else ("T", self.fresh(), ("B", "+", sub, self.lit()))
+                sub = self.var(rng.choice(pool)) if pool else ("T", self.fresh(), ("B", "+", sub, self.lit()))
             return ("T", self.fresh(), ("U", op, sub))
         if k < 0.77 and g["logical"]:
             return ("T", self.fresh(), (rng.choice("AO"), self.cond_expr(depth - 1), self.cond_expr(depth - 1)))
         if k < 0.87 and g["cast"]:
-            return ("T", self.fresh(), ("C", rng.choice(g["types"]), self.expr(depth - 1)))
+            return ("T", self.fresh(), ("C", rng.choice(g["types"]), self.expr(depth - 1, pool)))
         if k < 0.95 and g["cond"]:
-            return ("T", self.fresh(), ("Q", self.cond_expr(depth - 1), self.expr(depth - 1), self.expr(depth - 1)))
-        return self.leaf()
+            a = self.expr(depth - 1, pool)
+            b = self.const_expr(depth - 1) if has_var(a) and not g.get("relational") else self.expr(depth - 1, pool)
+            return ("T", self.fresh(), ("Q", self.cond_expr(depth - 1), a, b))
+        return self.leaf(pool)
 
-    def cond_expr(self, depth):
-        """an expression used as a condition: mostly a comparison of a variable with a small constant"""
+    def const_expr(self, depth):
         rng = self.rng
+        if depth <= 0 or rng.random() < 0.6:
+            return self.lit()
+        return ("T", self.fresh(), ("B", rng.choice(["+", "-", "*"]), self.const_expr(depth - 1), self.const_expr(depth - 1)))
+
+    def cond_expr(self, depth, x=None):
+        """a condition: comparison of an independent variable with a constant (or a constant when there is none)"""
+        rng, g = self.rng, self.g
+        ind = self.independent()
         k = rng.random()
-        if self.live and k < 0.55:
-            x = self.var(rng.choice(self.live))
-            c = self.lit(rng.choice([0, 0, 1, 2, 3, 4, 5, 8, 10, 100]), "is")
-            a, b = (x, c) if rng.random() < 0.8 else (c, x)
-            return ("T", self.fresh(), ("B", rng.choice(BIN_CMP), a, b))
-        if self.live and k < 0.65:
-            return self.var(rng.choice(self.live))
-        if k < 0.72:
-            return ("T", self.fresh(), ("U", "!", self.cond_expr(depth - 1)))
-        if k < 0.82 and self.g["logical"] and depth > 0:
-            return ("T", self.fresh(), (rng.choice("AO"), self.cond_expr(depth - 1), self.cond_expr(depth - 1)))
-        return self.expr(max(depth, 1))
+        if depth > 0 and k < 0.12 and g.get("not_cond", True):
+            return ("T", self.fresh(), ("U", "!", self.cond_expr(depth - 1, x)))
+        if depth > 0 and k < 0.27 and g["logical"]:
+            return ("T", self.fresh(), (rng.choice("AO"), self.cond_expr(depth - 1, x), self.cond_expr(depth - 1)))
+        if x is None:
+            if not ind:
+                return ("T", self.fresh(), ("B", rng.choice(BIN_CMP), self.lit(), self.lit()))
+            x = rng.choice(ind)
+        if k > 0.9 and g.get("bare_cond"):
+            return self.var(x)
+        c = self.lit(rng.choice([0, 0, 1, 2, 3, 4, 5, 8, 10, 100]), rng.choice(self.g.get("lit_types") or ["is"]))
+        a, b = (self.var(x), c) if rng.random() < 0.8 else (c, self.var(x))
+        return ("T", self.fresh(), ("B", rng.choice(BIN_CMP), a, b))
 
     # ---- statements ------------------------------------------------------------------------------------------------
     def new_var(self, ty, is_param=False):
         x = len(self.vars)
         self.vars.append(ty)
         self.names.append(("p%d" if is_param else "v%d") % x)
+        self.rel[x] = set()
         return x
+
+    def assign_target(self):
+        """a variable that may be overwritten with an arbitrary value here: not a loop-condition variable of an enclosing loop"""
+        pr = self.prot()
+        c = [x for x in self.live if x not in pr]
+        return self.rng.choice(c) if c else None
 
     def stmt(self, depth):
         rng, g = self.rng, self.g
         k = rng.random()
-        if k < 0.30 or not self.live:
-            e = self.expr(2)
+        pool = self.readable()
+        if k < 0.28 or not self.live:
+            e = self.expr(2, pool) if rng.random() < 0.7 else self.const_expr(1)
             x = self.new_var(rng.choice(g["types"]))
-            st = ("=", self.fresh(), x, e, True)
+            self.note_assign(x, e)
             self.live.append(x)
-            return st
+            return ("=", self.fresh(), x, e, True)
         if k < 0.45:
-            return ("=", self.fresh(), rng.choice(self.live), self.expr(2), False)
-        if k < 0.52 and g["compound"]:
-            op = rng.choice(["+", "-", "*", "&", "|", "^", "+", "-"] + (["<<", ">>", "/", "%"] if rng.random() < 0.3 else []))
-            e = self.lit(rng.choice([1, 2, 3, 4, 8]), "is") if op in ("<<", ">>", "/", "%") or rng.random() < 0.5 else self.expr(1)
-            return ("op=", self.fresh(), op, rng.choice(self.live), e)
-        if k < 0.60 and g["incdec"]:
+            x = self.assign_target()
+            if x is not None:
+                e = self.expr(2, pool) if rng.random() < 0.6 else self.const_expr(1)
+                if e[2] == ("V", x):
+                    e = self.const_expr(1)
+                self.note_assign(x, e)
+                return ("=", self.fresh(), x, e, False)
+        if k < 0.53 and g["compound"]:
+            x = rng.choice(self.live)
+            op = rng.choice(g.get("compound_ops") or ["+", "-", "*", "&", "|", "^", "+", "-", "<<", ">>", "/", "%"])
+            e = self.lit(rng.choice([1, 2, 3, 4, 8]), "is")
+            return ("op=", self.fresh(), op, x, e)       # x op= const keeps rel[x]
+        if k < 0.62 and g["incdec"]:
             return ("++", self.fresh(), rng.random() < 0.6, rng.random() < 0.4, rng.choice(self.live))
-        if k < 0.85 and depth > 0:
+        if k < 0.85 and depth > 0 and g.get("ifs", True):
             c = self.cond_expr(1)
             mark = len(self.live)
+            before = self.snapshot()
             a = self.block(depth - 1, rng.choice([1, 1, 2, 3]))
             del self.live[mark:]
+            after_a = self.snapshot()
+            self.rel = before
             b = self.block(depth - 1, rng.choice([1, 1, 2])) if rng.random() < 0.5 else ("skip",)
             del self.live[mark:]
+            self.merge(after_a)
             return ("if", c, a, b)
         if k < 0.95 and depth > 0 and g["loops"]:
-            mark = len(self.live)
-            if rng.random() < 0.6:
-                # counted loop with a fresh counter
-                i = self.new_var(rng.choice(["is", "iu", "is", "ss", "cu"]))
+            if rng.random() < 0.6 or not self.independent():
+                i = self.new_var(rng.choice(g.get("counter_types") or ["is"]))
                 init = ("=", self.fresh(), i, self.lit(rng.choice([0, 0, 1, 2]), "is"), True)
                 self.live.append(i)
                 mark = len(self.live)
                 c = ("T", self.fresh(), ("B", rng.choice(["<", "<", "<=", "!="]), self.var(i), self.lit(rng.choice([1, 2, 3, 5, 10]), "is")))
-                self.loop_depth += 1
+                self.protected.append({i}); self.loop_depth += 1
                 body = self.block(depth - 1, rng.choice([1, 2, 3]))
-                self.loop_depth -= 1
+                self.loop_depth -= 1; self.protected.pop()
                 del self.live[mark:]
                 inc = ("++", self.fresh(), True, rng.random() < 0.5, i)
                 return (";", init, ("while", c, (";", body, inc)))
-            c = self.cond_expr(1)
-            self.loop_depth += 1
+            x = rng.choice(self.independent())
+            mark = len(self.live)
+            c = self.cond_expr(1, x)
+            self.protected.append(set(vars_of(c))); self.loop_depth += 1
             body = self.block(depth - 1, rng.choice([1, 2, 3]))
-            self.loop_depth -= 1
+            self.loop_depth -= 1; self.protected.pop()
             del self.live[mark:]
-            return ("while", c, body)
-        if self.loop_depth > 0 and k < 0.98:
-            c = self.cond_expr(1)
-            return ("if", c, (rng.choice(["break", "continue"]),), ("skip",))
-        if rng.random() < 0.5:
-            c = self.cond_expr(1)
-            return ("if", c, ("return", self.expr(1)), ("skip",))
-        return ("=", self.fresh(), rng.choice(self.live), self.expr(2), False)
+            upd = ("++", self.fresh(), rng.random() < 0.5, rng.random() < 0.5, x) if rng.random() < 0.7 else ("op=", self.fresh(), rng.choice(["+", "-"]), x, self.lit(rng.choice([1, 2, 3]), "is"))
+            return ("while", c, (";", body, upd))
+        if self.loop_depth > 0 and k < 0.98 and g.get("ifs", True):
+            return ("if", self.cond_expr(1), (rng.choice(["break", "continue"]),), ("skip",))
+        if rng.random() < 0.5 and g.get("early_return", True) and g.get("ifs", True):
+            return ("if", self.cond_expr(1), ("return", self.expr(1, pool)), ("skip",))
+        e = self.const_expr(1)
+        x = self.new_var(rng.choice(g["types"]))
+        self.note_assign(x, e)
+        self.live.append(x)
+        return ("=", self.fresh(), x, e, True)
 
     def block(self, depth, n):
         sts = [self.stmt(depth) for _ in range(n)]
@@ -463,8 +545,26 @@ class ProgGen:
         for _ in range(self.nparams):
             self.live.append(self.new_var(rng.choice(self.g["types"]), True))
         body = self.block(2, self.size)
-        body = (";", body, ("return", self.expr(2)))
+        body = (";", body, ("return", self.expr(2, list(self.live))))
         return body
+
+
+def vars_of(e):
+    inner = e[2]
+    if inner[0] == "V":
+        return {inner[1]}
+    r = set()
+    for c in inner[1:]:
+        if isinstance(c, tuple) and c and c[0] == "T":
+            r |= vars_of(c)
+    return r
+
+
+def has_var(e):
+    inner = e[2]
+    if inner[0] == "V":
+        return True
+    return any(has_var(c) for c in inner[1:] if isinstance(c, tuple) and c and c[0] == "T")
 
 
 def strip_ids(e):
@@ -751,28 +851,26 @@ def fact_holds(f, x):
 
 
 def boundary_args(rng, plat, prog, n):
-    """argument vectors: type limits, small values, values near the literals of the program, random"""
-    lits = sorted(set(int(x) for x in re.findall(r"\b(\d+)[ul]*\b", prog["text"])))[:12]
-    out = []
+    """argument vectors: per parameter a candidate set (program literals and neighbours, 0, +-1, type limits, a few random
+    values); the first vectors are diagonal, the others random points of the product"""
+    lits = sorted(set(int(x) for x in re.findall(r"\b(\d+)[ul]*\b", prog["text"])))
+    lits = [l for l in lits if l < 2 ** 40][:40]
     ptys = prog["vars"][:prog["nparams"]]
-    for k in range(n):
-        args = []
-        for t in ptys:
-            r = rng.random()
-            if k == 0:
-                v = 0
-            elif r < 0.25:
-                v = rng.choice([0, 1, -1, 2, -2, 3, 4, 5])
-            elif r < 0.45:
-                v = rng.choice([plat.tmin(t), plat.tmax(t), plat.tmin(t) + 1, plat.tmax(t) - 1])
-            elif r < 0.75 and lits:
-                v = rng.choice(lits) + rng.choice([-2, -1, 0, 0, 1, 2])
-            elif r < 0.85:
-                v = rng.randrange(-300, 300)
-            else:
-                v = rng.randrange(plat.tmin(t), plat.tmax(t) + 1)
-            args.append(plat.conv(t, v))
-        out.append(args)
+    cands = []
+    for t in ptys:
+        c = {0, 1, -1, 2, -2, plat.tmin(t), plat.tmax(t), plat.tmin(t) + 1, plat.tmax(t) - 1}
+        for l in lits:
+            c |= {l - 1, l, l + 1, -l}
+        c |= {rng.randrange(-300, 300) for _ in range(3)} | {rng.randrange(plat.tmin(t), plat.tmax(t) + 1) for _ in range(3)}
+        cands.append(sorted(set(plat.conv(t, v) for v in c)))
+    out = [[plat.conv(t, 0) for t in ptys]]
+    seen = {tuple(out[0])}
+    tries = 0
+    while len(out) < n and tries < 4 * n:
+        tries += 1
+        args = tuple(rng.choice(c) for c in cands)
+        if args not in seen:
+            seen.add(args); out.append(list(args))
     return out
 
 
@@ -811,33 +909,47 @@ def classify_program_violation(prog, plat, f, toks, run_events):
     return None
 
 
-def run_programs(ctx, res, drv, progs, nargs, fuel=400):
+def run_programs(ctx, res, drv, progs, nargs, fuel=400, chunk=20):
     """dump every program, validate every mapped fact; search a failing execution for the rejected ones"""
     rng = ctx.rng
     d = os.path.join(ctx.tmp, "progs")
     os.makedirs(d, exist_ok=True)
     vlines, per = [], []
-    for n, prog in enumerate(progs):
-        plat = PLATFORMS[prog["plat"]]
-        path = os.path.join(d, "p%d.c" % n)
-        open(path, "w").write(prog["text"])
-        rc, log = run_cppcheck_dump(ctx, path, plat.name)
-        if not os.path.exists(path + ".dump"):
-            res.oblig("e2e:dump", False, "machinery", "cppcheck --dump produced no dump for program %d: %s\n%s" % (n, log[-300:], prog["text"]))
-            return
-        dplat, toks = parse_dump(path + ".dump")
-        os.remove(path + ".dump")
-        want = dict(char_bit=str(plat.cb), short_bit=str(plat.bits("ss")), int_bit=str(plat.bits("is")), long_bit=str(plat.bits("ls")), long_long_bit=str(plat.bits("qs")))
-        if any(dplat.get(k) != v for k, v in want.items()):
-            res.oblig("e2e:platform", False, "translation", "platform record in the dump %s differs from the table %s" % (dplat, want))
-            return
-        prog["index"] = node_index(prog["body"])
-        facts, problems = facts_of(prog, plat, toks)
-        if problems:
-            res.oblig("e2e:token-mapping", False, "machinery", "%s\n%s" % (problems[0], prog["text"]))
-            return
-        vlines.append("validate %s %s ## %s" % (plat.wire(), prog["wire"], " ".join(fact_tok(f) for f in facts)))
-        per.append((prog, plat, facts, toks))
+    # several functions per translation unit (one cppcheck process per chunk); every function keeps its own line offset
+    chunks = {}
+    for prog in progs:
+        chunks.setdefault(prog["plat"], []).append(prog)
+    nfile = 0
+    for platname, plist in chunks.items():
+        plat = PLATFORMS[platname]
+        for c0 in range(0, len(plist), chunk):
+            part = plist[c0:c0 + chunk]
+            path = os.path.join(d, "p%d.c" % nfile)
+            nfile += 1
+            text, line0 = "", []
+            for k, prog in enumerate(part):
+                line0.append(text.count("\n"))
+                text += prog["text"].replace("long long f(", "long long f%d(" % k, 1) + "\n"
+            open(path, "w").write(text)
+            rc, log = run_cppcheck_dump(ctx, path, plat.name)
+            if not os.path.exists(path + ".dump"):
+                res.oblig("e2e:dump", False, "machinery", "cppcheck --dump produced no dump: %s\n%s" % (log[-300:], text[:2000]))
+                return
+            dplat, toks = parse_dump(path + ".dump")
+            os.remove(path + ".dump")
+            want = dict(char_bit=str(plat.cb), short_bit=str(plat.bits("ss")), int_bit=str(plat.bits("is")), long_bit=str(plat.bits("ls")), long_long_bit=str(plat.bits("qs")))
+            if any(dplat.get(k) != v for k, v in want.items()):
+                res.oblig("e2e:platform", False, "translation", "platform record in the dump %s differs from the table %s" % (dplat, want))
+                return
+            for prog, l0 in zip(part, line0):
+                ptoks = {(ln - l0, col): t for (ln, col), t in toks.items() if ln > l0}
+                prog["index"] = node_index(prog["body"])
+                facts, problems = facts_of(prog, plat, ptoks)
+                if problems:
+                    res.oblig("e2e:token-mapping", False, "machinery", "%s\n%s" % (problems[0], prog["text"]))
+                    return
+                vlines.append("validate %s %s ## %s" % (plat.wire(), prog["wire"], " ".join(fact_tok(f) for f in facts)))
+                per.append((prog, plat, facts, ptoks))
     rc, vout, err = core.run_lines(drv, [], vlines, timeout=1200)
     if len(vout) != len(vlines) or any(o == "bad-op" for o in vout):
         res.oblig("e2e:driver", False, "machinery", "driver answered %d lines for %d programs; first bad: %s" %
@@ -886,26 +998,92 @@ def run_programs(ctx, res, drv, progs, nargs, fuel=400):
         evs = [(int(a), int(b)) for a, b in (p.split("=") for p in parts[1:])]
         runs.setdefault(id(prog), []).append((args, parts[0], evs))
     for prog, plat, toks, fs in by_prog.values():
-        for f in fs:
-            found = None
-            for args, outcome, evs in runs.get(id(prog), []):
-                if outcome != "ret":
-                    continue
-                bad = [v for (i, v) in evs if i == f["occ"] and not fact_holds(f, v)]
-                if bad:
-                    found = (args, bad[0], evs)
+        prs = [r for r in runs.get(id(prog), []) if r[1] == "ret"]
+        idx = prog["index"]
+        writers = {}
+        for id_, node in idx.items():
+            if node[0] == "=":
+                writers.setdefault(node[2], set()).add(id_)
+            elif node[0] == "op=":
+                writers.setdefault(node[3], set()).add(id_)
+            elif node[0] == "++":
+                writers.setdefault(node[4], set()).add(id_)
+        fail = {}
+        for fi, f in enumerate(fs):
+            for (args, outcome, evs) in prs:
+                j = next((j for j, (i, v) in enumerate(evs) if i == f["occ"] and not fact_holds(f, v)), None)
+                if j is not None:
+                    fail[fi] = (args, evs[j][1], evs, j)
                     break
-            desc = "%s %s%s%d on `%s` (occurrence %d, %s)" % ("Known" if f["k"] == "K" else "Impossible", "" if f["b"] == "P" else {"U": "<=", "L": ">="}[f["b"]],
-                                                              "", f["v"], f["tok"], f["occ"], prog["occ"][f["occ"]]["kind"])
-            if found:
-                key = classify_program_violation(prog, plat, f, toks, found[2])
-                res.violation("cppcheck reports %s at %d:%d but the UB-free execution f(%s) evaluates it to %d\n%s" %
-                              (desc, prog["occ"][f["occ"]]["line"], prog["occ"][f["occ"]]["col"], ", ".join(map(str, found[0])), found[1], prog["text"]),
-                              dict(kind="program", platform=plat.name, text=prog["text"], wire=prog["wire"], fact=fact_tok(f), args=found[0], value=found[1],
-                                   occ=prog["occ"][f["occ"]]), concrete=True, key=key)
-                res.count("violation:" + str(key))
-            else:
+
+        def sources(occ, evs, j):
+            """occurrences whose value flows into occurrence `occ` at event position j"""
+            node = idx.get(occ)
+            if node is None:
+                return []
+            def last_writer(x):
+                for k in range(j - 1, -1, -1):
+                    if evs[k][0] in writers.get(x, ()):
+                        return [(evs[k][0], k)]
+                return []
+            def pos_of(cid):
+                for k in range(j, -1, -1):
+                    if evs[k][0] == cid:
+                        return k
+                return j
+            if node[0] == "V":
+                return last_writer(node[1])
+            if node[0] == "=":
+                return [(node[3][1], pos_of(node[3][1]))]
+            if node[0] == "op=":
+                return [(node[4][1], pos_of(node[4][1]))] + last_writer(node[3])
+            if node[0] == "++":
+                return last_writer(node[4])
+            return [(c[1], pos_of(c[1])) for c in node[1:] if isinstance(c, tuple) and c and c[0] == "T"]
+
+        def violated_at(occ, evs):
+            return [g for g in fs if g["occ"] == occ and any(i == occ and not fact_holds(g, v) for (i, v) in evs)]
+
+        roots = {}
+        for fi, f in enumerate(fs):
+            desc = "%s %s%d on `%s` (occurrence %d, %s)" % ("Known" if f["k"] == "K" else "Impossible", "" if f["b"] == "P" else {"U": "<=", "L": ">="}[f["b"]],
+                                                            f["v"], f["tok"], f["occ"], prog["occ"][f["occ"]]["kind"])
+            if fi not in fail:
                 unexplained.append((prog, f, desc))
+                continue
+            args, val, evs, j = fail[fi]
+            # walk to a root cause: a violated fact none of whose sources carries a violated fact in the same run
+            cur, curj, seen = f, j, set()
+            while True:
+                seen.add(cur["occ"])
+                nxt = None
+                for (so, sj) in sources(cur["occ"], evs, curj):
+                    if so in seen:
+                        continue
+                    vg = violated_at(so, evs)
+                    if vg:
+                        nxt = (vg[0], sj)
+                        break
+                if nxt is None:
+                    break
+                cur, curj = nxt
+            rk = (cur["occ"], cur["k"], cur["b"], cur["v"])
+            if rk not in roots:
+                rv = next(v for (i, v) in evs if i == cur["occ"] and not fact_holds(cur, v))
+                roots[rk] = dict(f=cur, args=args, val=rv, evs=evs, derived=0)
+            if cur is not f:
+                roots[rk]["derived"] += 1
+        for rk, r in roots.items():
+            f = r["f"]
+            desc = "%s %s%d on `%s` (occurrence %d, %s)" % ("Known" if f["k"] == "K" else "Impossible", "" if f["b"] == "P" else {"U": "<=", "L": ">="}[f["b"]],
+                                                            f["v"], f["tok"], f["occ"], prog["occ"][f["occ"]]["kind"])
+            key = classify_program_violation(prog, plat, f, toks, r["evs"])
+            res.violation("cppcheck reports %s at %d:%d but the UB-free execution f(%s) evaluates it to %d (%d further reported facts fail as a consequence)\n%s" %
+                          (desc, prog["occ"][f["occ"]]["line"], prog["occ"][f["occ"]]["col"], ", ".join(map(str, r["args"])), r["val"], r["derived"], prog["text"]),
+                          dict(kind="program", platform=plat.name, text=prog["text"], wire=prog["wire"], fact=fact_tok(f), args=r["args"], value=r["val"],
+                               occ=prog["occ"][f["occ"]], key=key), concrete=True, key=key)
+            res.count("violation:" + str(key))
+            res.count("violation-consequences", r["derived"])
     if unexplained:
         prog, f, desc = unexplained[0]
         res.oblig("e2e:validator-accepts-every-reported-fact", False, "validation",
